@@ -82,9 +82,9 @@ Move(s, t) ==
     [] op \in {"swait", "stwait"} /\ st = "a" -> IF s.count > 0 THEN Finish([s EXCEPT !.count = s.count - 1], t, 1) ELSE Park(s, t, "s")
     [] op \in {"swait", "stwait"} /\ st = "s" -> Finish([s EXCEPT !.count = s.count - 1], t, 1)
     [] op = "strywait" /\ st = "a" -> IF s.count > 0 THEN Finish([s EXCEPT !.count = s.count - 1], t, 1) ELSE Finish(s, t, 0)
-    \* Signal::set: lock; signaled = true; unlock | broadcast
-    [] op = "set" /\ st = "a" -> Park([s EXCEPT !.flag = TRUE], t, "b")
-    [] op = "set" /\ st = "b" -> Park([s EXCEPT !.sigd = s.cw], t, "d")
+    \* Signal::set: lock; signaled = true; broadcast (still holding the mutex) | unlock
+    [] op = "set" /\ st = "a" -> Park([Acquire(s, t) EXCEPT !.flag = TRUE, !.sigd = s.cw], t, "b")
+    [] op = "set" /\ st = "b" -> Park(Release(s, t), t, "d")
     [] op = "set" /\ st = "d" -> Finish(s, t, 1)
     [] op = "reset" /\ st = "a" -> Park([s EXCEPT !.flag = FALSE], t, "b")
     [] op = "reset" /\ st = "b" -> Finish(s, t, 1)
